@@ -72,7 +72,7 @@ MIN_COUNTS = {
     "objfun_call_sites": 1,
     "sink_call_sites": 3,
     "evaluate_objective_call_sites": 11,
-    "solve_main_call_sites": 3,
+    "solve_main_call_sites": 2,      # the first run and at least one call in the hard-restart loop (today 3: the loop has two variants of the call)
     "solve_main_breaks": 30,
     "solve_main_continues": 20,
     "exit_constructions": 35,
